@@ -239,6 +239,9 @@ func main() {
 			if g.Rng().Chance(8, 100) {
 				in = g.BadInput()
 				kind = "error"
+			} else if g.Rng().Chance(6, 100) {
+				in = g.LitQInput()
+				kind = "edge"
 			} else {
 				in = g.Input()
 				if g.Rng().Chance(15, 100) {
